@@ -1251,13 +1251,10 @@ fn diff_edges(
                 if rec_before == rec_after {
                     continue;
                 }
-                if rec_before.from != rec_after.from {
-                    ops.push(WarpOp::DeleteEdge {
-                        warp_id,
-                        from: rec_before.from,
-                        edge_id: EdgeId(*id),
-                    });
-                }
+                // `UpsertEdge` replaces the record by id and migrates it between
+                // source buckets while keeping the edge's attachment, exactly as
+                // the live store did. Emitting a `DeleteEdge` for the old source
+                // first would cascade-drop that attachment on replay.
                 ops.push(WarpOp::UpsertEdge {
                     warp_id,
                     record: rec_after.clone(),
